@@ -247,6 +247,15 @@ Proof. intro names. repeat split; vm_compute; reflexivity. Qed.
 Lemma default_digits_ok : forall names, forallb (digit_char (default_cfg names)) (expand d_ranges) = true.
 Proof. intro names. vm_compute. reflexivity. Qed.
 
+(* an operator word is the operator's token, whatever name the factory gave it *)
+Lemma kw_action_operator : forall cfg w name n, cfg_wfb cfg = true ->
+  assoc w (op_table cfg) = Some name -> kw_action cfg w n = MTok name n (VText w).
+Proof.
+  intros cfg w name n WF H. unfold kw_action. rewrite H. destruct (wf_parts cfg WF) as (T & _).
+  destruct (assoc_In _ _ _ _ H) as [k' I]. rewrite forallb_forall in T. specialize (T _ I). cbn in T.
+  rewrite T. reflexivity.
+Qed.
+
 (* a word that begins with two underscores is rejected at its first character *)
 Lemma dunder_rejected : forall names w, forallb (in_ranges w_ranges) w = true ->
   lex (default_cfg names) (95 :: 95 :: w) = ([], EndLexErr 0).
